@@ -180,6 +180,11 @@ fn witness_range_reads() {
 // ---------------- U-walio / U-replay: damaged segment is an error or a clean prefix ----------------
 #[test]
 fn witness_wal_damage() {
+    wal_damage_run(None);
+    // with an explicit checkpoint after the second operation: damage in the not-yet-checkpointed part
+    wal_damage_run(Some(2));
+}
+fn wal_damage_run(ckpt_after: Option<usize>) {
     use crate::types::Config;
     let dir = tempfile::tempdir().unwrap();
     let cfg = Config { num_ops_per_wal: NonZeroU64::new(1000).unwrap(), scan_orphans_on_startup: false, ..Config::default() };
@@ -190,6 +195,7 @@ fn witness_wal_damage() {
             let mut tx = cas.put(format!("key{i}")).unwrap();
             tx.write(format!("value-{i}").as_bytes()).unwrap();
             tx.finish().unwrap();
+            if ckpt_after == Some(i + 1) { cas.checkpoint().unwrap(); }
         }
         if n_ops > 3 { cas.remove(&"key1".to_string()).unwrap(); }
     }
@@ -213,6 +219,7 @@ fn witness_wal_damage() {
     let mut rng = Rng::new();
     let mut cases: Vec<(String, Vec<u8>, usize)> = vec![];
     for (ri, (o, len)) in recs.iter().enumerate() {
+        if ri < ckpt_after.unwrap_or(0) { continue; } // the property speaks about the not-yet-checkpointed part
         // truncation inside record ri
         for cut in [*o, *o + 1, *o + 43, *o + 44, *o + 45, *o + len - 1] { if cut < o + len { cases.push((format!("truncate at {cut} (record {ri})"), orig[..cut].to_vec(), ri)); } }
         // single-byte change in checksum / payload
@@ -224,11 +231,18 @@ fn witness_wal_damage() {
         std::fs::create_dir_all(d2.path().join("cas")).unwrap();
         std::fs::write(d2.path().join("0_index.wal"), &data).unwrap();
         let _ = std::fs::remove_file(d2.path().join("LOCK"));
-        let r = std::panic::catch_unwind(|| crate::Cas::<String>::open(d2.path(), Config { num_ops_per_wal: NonZeroU64::new(1000).unwrap(), scan_orphans_on_startup: false, ..Config::default() }));
+        // open on a helper thread: a decoder that never returns is a failure too (watchdog 60 s)
+        let (txc, rxc) = std::sync::mpsc::channel();
+        let p2 = d2.path().to_path_buf();
+        std::thread::spawn(move || {
+            let r = std::panic::catch_unwind(|| crate::Cas::<String>::open(&p2, Config { num_ops_per_wal: NonZeroU64::new(1000).unwrap(), scan_orphans_on_startup: false, ..Config::default() }));
+            let _ = txc.send(r);
+        });
+        let r = rxc.recv_timeout(std::time::Duration::from_secs(60)).unwrap_or_else(|_| panic!("open did not return within 60 s on damaged log: {what}"));
         let r = r.unwrap_or_else(|_| panic!("open panicked on damaged log: {what}"));
         if let Ok(c) = r {
             let got: Vec<String> = c.read_index_state().iter().map(|(k, _)| k.clone()).collect();
-            assert_eq!(got, keys_after(ri), "damaged log silently accepted ({what}): state is not the longest undamaged prefix");
+            assert_eq!(got, keys_after(ri), "damaged log silently accepted ({what}, checkpoint after {ckpt_after:?}): state is not the longest undamaged prefix");
         }
     }
 }
